@@ -522,3 +522,56 @@ Proof.
   split; [exact Habs|]. split; [exact Hcnt|]. split; [exact Hc2|]. split; [exact Hr2|].
   pose proof (inv_m_diff p2 I2). pose proof (inv_m_diff p1 I1). lia.
 Qed.
+
+(* ---------- reserve / give back; service ranges ---------- *)
+Lemma block_overlap_iff g i j : overlap (block g j) (block g i) <-> j = i.
+Proof.
+  split.
+  - intros H. destruct (N.eq_dec j i) as [E|E]; [exact E|]. exfalso. exact (blocks_disjoint g j i E H).
+  - intros ->. split; [reflexivity|]. exists (ca (block g i)). split; apply in_cidr_self.
+Qed.
+
+(* C04: a block that was free, is reserved and is then given back (failed write, other family
+   exhausted, node already had CIDRs) leaves the pool exactly as it was: same used blocks, same count *)
+Theorem reserve_then_release_restores p i p1 p2 :
+  PoolInv p -> clean_geom (pg p) = true -> i < maxc (pg p) -> ~ In (block (pg p) i) (used p) ->
+  occupy p (block (pg p) i) = Some p1 -> release p1 (block (pg p) i) = Some p2 ->
+  (forall j, j < maxc (pg p) -> (abs p2 j <-> abs p j)) /\ cnt p2 = cnt p /\ pg p2 = pg p.
+Proof.
+  intros I Hcl Hi Hfree H1 H2. pose proof (block_wf _ _ (inv_wf p I) Hi) as Hw.
+  pose proof (occupy_spec p _ I Hcl Hw) as S1. rewrite H1 in S1. destruct S1 as (_ & I1 & _ & Hg1 & _ & _ & Hu1).
+  pose proof (release_spec p1 (block (pg p) i) I1 ltac:(rewrite Hg1; exact Hcl) Hw) as S2. rewrite H2 in S2.
+  destruct S2 as (_ & I2 & _ & Hg2 & _ & _ & Hu2).
+  assert (Habs : forall j, j < maxc (pg p) -> (abs p2 j <-> abs p j)).
+  { intros j Hj. unfold abs. rewrite Hg2, Hg1. rewrite Hg1 in Hu2. rewrite (Hu2 j Hj), (Hu1 j Hj), block_overlap_iff.
+    split; [intros [[H|H] Hn]; [exact H|contradiction]|]. intros H. split; [left; exact H|]. intros ->. contradiction. }
+  split; [exact Habs|]. split; [|congruence].
+  apply abs_determines_cnt; [exact I2|exact I|congruence|]. rewrite Hg2, Hg1. exact Habs.
+Qed.
+
+(* C09: occupying a service range marks every block it overlaps as used ... *)
+Theorem occupy_marks_all_overlapping p svc p' :
+  PoolInv p -> clean_geom (pg p) = true -> wf_cidr svc -> occupy p svc = Some p' ->
+  pg p' = pg p /\ PoolInv p' /\ forall i, i < maxc (pg p) -> overlap (block (pg p) i) svc -> In (block (pg p) i) (used p').
+Proof.
+  intros I Hcl Hw H. pose proof (occupy_spec p svc I Hcl Hw) as S. rewrite H in S.
+  destruct S as (_ & I' & _ & Hg & _ & _ & Hu). split; [exact Hg|]. split; [exact I'|].
+  intros i Hi Ho. apply (Hu i Hi). right. exact Ho.
+Qed.
+
+(* ... and the candidate search never returns a used block, hence never one overlapping the service range *)
+Theorem candidate_avoids_marked p svc blk sk p' :
+  PoolInv p -> (forall i, i < maxc (pg p) -> overlap (block (pg p) i) svc -> In (block (pg p) i) (used p)) ->
+  next_candidate p = Cand blk sk p' -> ~ overlap blk svc.
+Proof.
+  intros I Hm Hn. pose proof (next_spec p I) as S. rewrite Hn in S.
+  destruct S as (i & Hi & -> & Hfree & _). intros Ho. apply Hfree. apply Hm; assumption.
+Qed.
+
+(* a range that does not meet the pool's range touches no block *)
+Lemma no_overlap_no_block p svc i :
+  PoolInv p -> i < maxc (pg p) -> ~ overlap (grange (pg p)) svc -> ~ overlap (block (pg p) i) svc.
+Proof.
+  intros I Hi Hn [Hf (x & Hx1 & Hx2)]. apply Hn. split; [exact Hf|]. exists x. split; [|exact Hx2].
+  apply (block_in_range _ i (inv_wf p I) Hi). exact Hx1.
+Qed.
